@@ -58,7 +58,7 @@ def register(reg):
                   ('the-tips-differ', 'implies(count < 0, not (' + AGREE.format(h='self.state.height') + '))'),
                   ('forced-count-in-range', 'implies(count >= 0, count <= self.state.height)')],
         raises={'DBError': [], 'DaemonError': []}, assumes_inv=False, maintains_inv=False,
-        ensures=[('ends-at-the-tip', 'result[0] + result[1] - 1 == self.state.height and result[0] >= 0'),
+        ensures=[('ends-at-the-tip', 'result[0] + result[1] - 1 == self.state.height and result[0] >= 0 and result[1] >= 0'),
                  ('forced', 'implies(old(count) >= 0, result[1] == old(count))'),
                  ('agree-below-the-start', 'implies(old(count) < 0 and result[0] > 0, ' + AGREE.format(h='result[0] - 1') + ')'),
                  # start == 0 means the search ran out of chain (every compared block down to height 1 differs): the fork is
@@ -71,4 +71,18 @@ def register(reg):
                                        ('window-ends-below-the-tip', 'start + count <= height')],
                            var_kinds={'hashes': List(KBytes), 'hex_hashes': List(KStr), 'd_hex_hashes': List(KStr), 'n': Int},
                            decreases='start')},
+        props=['C03'])
+
+    # _reorg_hashes: the hex hashes handed to the undo loop are those of exactly the blocks start .. height of OUR chain, in
+    # increasing height
+    reg.contract(
+        BP + '._reorg_hashes', params={'count': Int}, returns=Tuple(Int, List(KStr)),
+        requires=[('indexed', 'self.state.height >= 1'),
+                  ('the-tips-differ', 'implies(count < 0, not (' + AGREE.format(h='self.state.height') + '))'),
+                  ('forced-count-in-range', 'implies(count >= 0, count <= self.state.height)')],
+        raises={'DBError': [], 'DaemonError': []}, assumes_inv=False, maintains_inv=False,
+        ensures=[('our-blocks-from-start-to-the-tip', 'result[0] >= 0 and len(result[1]) == self.state.height - result[0] + 1 and '
+                                                      'forall(lambda j=Int: implies(0 <= j and j < len(result[1]), '
+                                                      'result[1][j] == hexrev(ours(result[0] + j))))'),
+                 ('forced', 'implies(old(count) >= 0, len(result[1]) == old(count))')],
         props=['C03'])
